@@ -4,6 +4,7 @@ set -e
 P=$1
 git -C /repo worktree add -q /tmp/seed_$P HEAD
 cp -r /repo/target /tmp/seed_$P/target
+cp /repo/Cargo.lock /tmp/seed_$P/Cargo.lock 2>/dev/null || true   # (untracked in /repo: without it every dependency is re-resolved and rebuilt)
 python3 - "$P" <<'PY'
 import json,sys
 pid=sys.argv[1]
